@@ -241,6 +241,8 @@ class MEDDLY::terminal {
                         float f;
                     } x;
                     x.f = t_real;
+                    // values that vanish once the lsb is stripped are zero
+                    if (0 == (x.h & ~(msb() | 1))) return 0;
                     // strip the lsb in fraction, and add sign bit
                     return (x.h>>1) | msb();
                 } else {
@@ -250,6 +252,8 @@ class MEDDLY::terminal {
                         double d;
                     } x;
                     x.d = t_real;
+                    // values that vanish once the lsb is stripped are zero
+                    if (0 == (x.h & ~(msb() | 1))) return 0;
                     // strip the lsb in fraction, and add sign bit
                     return (x.h>>1) | msb();
                 }
